@@ -9,5 +9,6 @@ if [ ! -d .pydeps/jsonschema ]; then
 fi
 # regenerate the generated model fragment from /repo, then build every property target and the model driver
 /venv/bin/python harness/regen.py
+python3 harness/genroots.py
 cd lean
 lake build PW pwdriver
